@@ -28,8 +28,16 @@ for sd in sorted(d for d in os.listdir(os.path.join(ROOT, "seeded")) if os.path.
     out.append("| %s | %s | %s — needs: %s | %s | %s | %s%s |" % (
         sd, pid, m["change"].replace("|", "/"), m["needs"].replace("|", "/"), owns, others or "—",
         suite.group(1) if suite else "?", ("; demo %s/%s" % (demo.group(1), demo.group(2))) if demo else ""))
+miss = ["| seed | property | what it needed | what happened / what was strengthened |", "|---|---|---|---|"]
+for sd in sorted(d for d in os.listdir(os.path.join(ROOT, "seeded")) if os.path.isdir(os.path.join(ROOT, "seeded", d))):
+    m = json.load(open(os.path.join(ROOT, "seeded", sd, "meta.json")))
+    if "MISSED" in m.get("note", ""):
+        miss.append("| `%s` | %s | %s | %s |" % (sd, m["property"], m["needs"].replace("|", "/"), m["note"].replace("|", "/")))
 p = os.path.join(ROOT, "DESIGN.md")
 s = open(p).read()
+mb, me = "<!-- MISSTABLE:BEGIN -->", "<!-- MISSTABLE:END -->"
+if mb in s:
+    s = s[:s.index(mb)] + mb + "\n" + "\n".join(miss) + "\n" + me + s[s.index(me) + len(me):]
 b, e = "<!-- SEEDTABLE:BEGIN -->", "<!-- SEEDTABLE:END -->"
 blk = b + "\n" + "\n".join(out) + "\n" + e
 if b in s:
@@ -37,4 +45,4 @@ if b in s:
 else:
     s += "\n" + blk + "\n"
 open(p, "w").write(s)
-print(len(out) - 2, "seeds")
+print(len(out) - 2, "seeds;", len(miss) - 2, "first missed")
